@@ -170,7 +170,8 @@ func (r *lvRef) field(i int) {
 	switch p[i+1] {
 	case 1, 2, 3, 4, 5, 6: // name, extendee, number, label, type, type_name
 		r.mustEnd(i + 2)
-	case 10: // json_name: an attribute of the field like its name (bufprotosource.Field.JSONNameLocation)
+	case 10: // json_name (bufprotosource.Field.JSONNameLocation): only present when set, associated with itself like default_value
+		r.emit(i + 2)
 		r.mustEnd(i + 2)
 		r.jsonName = r.ok
 	case 7: // default_value
